@@ -1,4 +1,4 @@
 Require Extraction.
 Require Import ExtrOcamlBasic.
-From Herc Require Import Base.Conv Plan.Syntax Plan.Exec Plan.Graph Plan.Checker Plan.GC Plan.Hibernate Plan.Lifecycle.
-Extraction "c04_model.ml" conv_anchor plan_ok c04_ok pre_okb lifecycleb hb_inputb hb_outb collect_garbage insert_hb erase_hb erase_deletes init mkA.
+From Herc Require Import Base.Conv Plan.Syntax Plan.Exec Plan.Graph Plan.Checker Plan.GC Plan.Hibernate Plan.Lifecycle Plan.FastPlan.
+Extraction "c04_model.ml" conv_anchor plan_ok c04_ok pre_okb lifecycleb hb_inputb hb_outb collect_garbage insert_hb erase_hb erase_deletes init mkA fast_c04 mkFA.
